@@ -1,0 +1,150 @@
+//go:build verif
+
+package mimetype
+
+import (
+	"bufio"
+	stdjson "encoding/json"
+	"os"
+	"runtime"
+	"strconv"
+	"strings"
+	"sync"
+	"testing"
+)
+
+// With the "verif" build tag and VERIF_TRACE set, the package's own test suite records
+// every detection it performs (consult events of the walk, leaf, limit) and every
+// extension it registers, in the format validated by /verif/spec/TraceTree.tla.
+
+type verifSuiteTracer struct {
+	mu   sync.Mutex
+	w    *bufio.Writer
+	ids  map[*MIME]int
+	n    int
+	perG map[int64]*verifWalk
+	hid  int
+}
+
+type verifWalk struct {
+	consults [][2]int
+	limit    uint32
+	length   int
+}
+
+func verifGoid() int64 {
+	var buf [64]byte
+	n := runtime.Stack(buf[:], false)
+	s := strings.TrimPrefix(string(buf[:n]), "goroutine ")
+	i := strings.IndexByte(s, ' ')
+	id, _ := strconv.ParseInt(s[:i], 10, 64)
+	return id
+}
+
+func (t *verifSuiteTracer) emit(v any) {
+	b, _ := stdjson.Marshal(v)
+	t.w.Write(b)
+	t.w.WriteByte('\n')
+}
+
+func (t *verifSuiteTracer) hook(ev VerifEvent) {
+	switch ev.Point {
+	case "detect.rlocked", "consult.post", "leaf", "ext.published":
+	default:
+		return
+	}
+	g := verifGoid()
+	t.mu.Lock()
+	defer t.mu.Unlock()
+	switch ev.Point {
+	case "detect.rlocked":
+		// in-package tests also edit root.children directly (to undo an Extend), which no hook
+		// sees: when the live tree differs from the recorded one, dump it again
+		if flat := root.flatten(); len(flat) != len(t.ids) {
+			t.dumpTree(flat)
+		}
+		t.perG[g] = &verifWalk{limit: ev.Limit, length: ev.Len}
+	case "consult.post":
+		if w := t.perG[g]; w != nil {
+			ok := 0
+			if ev.OK {
+				ok = 1
+			}
+			w.consults = append(w.consults, [2]int{t.ids[ev.Child], ok})
+		}
+	case "leaf":
+		w := t.perG[g]
+		if w == nil {
+			return
+		}
+		delete(t.perG, g)
+		t.hid++
+		chain := [][2]string{}
+		for m := ev.Node; m != nil; m = m.parent {
+			chain = append(chain, [2]string{m.mime, m.extension})
+		}
+		params := []string{}
+		full := ev.Node.mime
+		if ev.Charset != "" {
+			params = append(params, "charset")
+			full += "; charset=" + ev.Charset
+		}
+		cs := w.consults
+		if cs == nil {
+			cs = [][2]int{}
+		}
+		t.emit(map[string]any{"ev": "detect", "hid": t.hid, "limit": int64(w.limit), "len": w.length, "entry": "suite", "sample": "suite",
+			"consults": cs, "leaf": t.ids[ev.Node], "chain": chain, "full": full, "recheck": [][2]int{}, "parse_ok": true,
+			"base": ev.Node.mime, "params": params, "anc_params": false, "err": false, "buf_unchanged": true})
+	case "ext.published":
+		id := len(t.ids) + 1
+		t.ids[ev.Child] = id
+		t.emit(map[string]any{"ev": "extend", "parent": t.ids[ev.Node], "node": id, "mime": ev.Child.mime, "ext": ev.Child.extension})
+	}
+}
+
+func (t *verifSuiteTracer) dumpTree(flat []*MIME) {
+	type rec struct {
+		Parent   int    `json:"parent"`
+		Children []int  `json:"children"`
+		Mime     string `json:"mime"`
+		Ext      string `json:"ext"`
+	}
+	t.ids = map[*MIME]int{}
+	for i, n := range flat {
+		t.ids[n] = i + 1
+	}
+	recs := make([]rec, len(flat))
+	for i, n := range flat {
+		r := rec{Mime: n.mime, Ext: n.extension, Children: []int{}}
+		if n.parent != nil {
+			r.Parent = t.ids[n.parent]
+		}
+		for _, c := range n.children {
+			r.Children = append(r.Children, t.ids[c])
+		}
+		recs[i] = r
+	}
+	t.emit(map[string]any{"ev": "tree", "nodes": recs})
+}
+
+func TestMain(m *testing.M) {
+	path := os.Getenv("VERIF_TRACE")
+	if path == "" {
+		os.Exit(m.Run())
+	}
+	f, err := os.Create(path)
+	if err != nil {
+		panic(err)
+	}
+	t := &verifSuiteTracer{w: bufio.NewWriterSize(f, 1<<20), ids: map[*MIME]int{}, perG: map[int64]*verifWalk{}}
+	t.dumpTree(root.flatten())
+	VerifHook = t.hook
+	code := m.Run()
+	VerifHook = nil
+	t.mu.Lock()
+	t.w.Flush()
+	f.Close()
+	t.mu.Unlock()
+	os.Exit(code)
+}
